@@ -57,6 +57,9 @@ class Sim:
         self.seq = 0
         self.paths = cfg.get('paths') or PATHS
         self.pw_prefix = cfg.get('pw_prefix', 'pw').encode()
+        if cfg.get('binary_passwords'):
+            # bytes that are not valid UTF-8, plus a composed character: passwords are byte strings, none of it may be normalised
+            self.pw_prefix = b'p\xff\xc3\xa9\xe9w' + self.pw_prefix
         if cfg.get('long_passwords'):
             # passwords that agree on their first 64 bytes (a KDF must still tell them apart, or refuse them)
             self.pw_prefix = b'L' * 64 + self.pw_prefix
@@ -246,9 +249,9 @@ class Sim:
             model[os.path.join(real, s['path'])] = (world.content(s['content']), s['mtime_ns'])
         return src, model
 
-    async def _snapshot_coro(self, u, client, src, note):
+    async def _snapshot_coro(self, u, client, src, note, rate_limit=None):
         repo = await self.session(client, u)
-        return await repo.snapshot(paths=[Path(src)], note=note)
+        return await repo.snapshot(paths=[Path(src)], note=note, rate_limit=rate_limit)
 
     def _register_snapshot(self, u, res, model, note, fileset):
         self.seq += 1
@@ -275,7 +278,9 @@ class Sim:
         before_log = len(self.store.log)
         prior = [s for s in self.live() if s.family == u.family and s.fileset == fileset and model]
         try:
-            res, _ = self.run(self._snapshot_coro(u, op.get('client', 0), src, note))
+            if op.get('rate_limit'):
+                self.events.add('rate-limited-snapshot')
+            res, _ = self.run(self._snapshot_coro(u, op.get('client', 0), src, note, op.get('rate_limit')))
         except Exception as e:
             return fail('snapshot-error', f'snapshot raised {type(e).__name__}: {e}')
         s = self._register_snapshot(u, res, model, note, fileset)
@@ -550,6 +555,13 @@ class Sim:
                 return None
         elif how == 1:
             pw, key = u.password + b'x', u.key
+            variant = op.get('variant', 0) % 4
+            if variant == 1 and b'\xff' in u.password:
+                pw = u.password.replace(b'\xff', b'\xfe', 1)            # another invalid byte at the same place
+            elif variant == 2 and b'\xc3\xa9' in u.password:
+                pw = u.password.replace(b'\xc3\xa9', b'e\xcc\x81', 1)     # the decomposed spelling of the same character
+            elif variant == 3 and b'\xe9' in u.password:
+                pw = u.password.replace(b'\xe9w', b'\xe8w', 1)
         else:
             other = self.user(op['other'])
             pw, key = u.password, other.key
@@ -800,8 +812,9 @@ def make_machine(prop, tier, ctx, *, checks, encrypted=None, weights=None, extra
             f.__name__ = f'{name}_{i}'
             setattr(Machine, f.__name__, rule(**strat_kwargs)(f))
 
-    add('snapshot', w['snapshot'], dict(u=small, f=fileset, c=st.integers(0, 2), n=st.booleans()),
-        lambda u, f, c, n: {'op': 'snapshot', 'user': u, 'files': f, 'client': c, 'note': n})
+    add('snapshot', w['snapshot'], dict(u=small, f=fileset, c=st.integers(0, 2), n=st.booleans(),
+                                        r=st.sampled_from([None, None, None, 10 ** 9, 10 ** 7])),
+        lambda u, f, c, n, r: {'op': 'snapshot', 'user': u, 'files': f, 'client': c, 'note': n, 'rate_limit': r})
     add('repeat_snapshot', w['repeat'], dict(u=small, r=small, c=st.integers(0, 2)),
         lambda u, r, c: {'op': 'snapshot', 'user': u, 'files': [], 'client': c, 'note': False, 'repeat_of': r})
     add('bulk_snapshot', w['bulk'], dict(u=small, f=fileset, c=st.integers(1, 2), b=st.sampled_from([1040, 1100, 1500])),
@@ -824,8 +837,8 @@ def make_machine(prop, tier, ctx, *, checks, encrypted=None, weights=None, extra
         lambda u, v, o, c: {'op': 'cross_delete', 'user': u, 'victim': v, 'with_own': o, 'client': c})
     add('cross_restore', w['cross'], dict(u=small, v=small, c=st.integers(0, 2)),
         lambda u, v, c: {'op': 'cross_restore', 'user': u, 'victim': v, 'client': c})
-    add('unlock_wrong', w['unlock_wrong'], dict(u=small, o=small, h=st.integers(0, 2)),
-        lambda u, o, h: {'op': 'unlock_wrong', 'user': u, 'other': o, 'how': h})
+    add('unlock_wrong', w['unlock_wrong'], dict(u=small, o=small, h=st.integers(0, 2), v=st.integers(0, 3)),
+        lambda u, o, h, v: {'op': 'unlock_wrong', 'user': u, 'other': o, 'how': h, 'variant': v})
     add('plant', w['plant'], dict(u=small, k=st.sampled_from(['orphans', 'foreign']), n=small, s=st.integers(0, 999)),
         lambda u, k, n, s: {'op': 'plant', 'user': u, 'kind': k, 'n': n, 'seed': s})
     return Machine
